@@ -762,6 +762,27 @@ def b_dir(it, o):
     return sorted(names)
 
 
+def b_getattr(it, o, name, *default):
+    """getattr / setattr with a concrete attribute name: the same as the attribute access / assignment"""
+    if not isinstance(name, str):
+        raise Unsupported("getattr with a symbolic attribute name")
+    if isinstance(o, PyObjV) and name not in o.fields and default and o.module.resolve_method(o.cls, name) is None:
+        return default[0]
+    return it.get_attr(o, name, getattr(it, "cur_node", None))
+
+
+def b_setattr(it, o, name, value):
+    if not isinstance(name, str):
+        raise Unsupported("setattr with a symbolic attribute name")
+    if isinstance(o, PyObjV):
+        o.fields[name] = value
+        return None
+    if isinstance(o, ObjV):
+        it.write_field(o, name, value, getattr(it, "cur_node", None))
+        return None
+    raise Unsupported("setattr on %r" % (o,))
+
+
 def b_type(it, o):
     """type() of an object of concrete shape (its class; compare through `.__name__`)"""
     if isinstance(o, PyObjV):
@@ -809,7 +830,7 @@ def b_round(it, x, ndigits=None):
 BUILTINS = {
     "len": b_len, "sum": b_sum, "all": b_all, "any": b_any, "max": b_max, "min": b_min, "abs": b_abs, "float": b_float, "int": b_int,
     "isinstance": b_isinstance, "range": b_range, "zip": b_zip, "enumerate": b_enumerate, "list": b_list, "tuple": b_tuple, "dict": b_dict,
-    "bisect_left": b_bisect_left, "round": b_round, "set": b_set, "sorted": b_sorted, "hasattr": b_hasattr, "dir": b_dir, "type": b_type, "print": b_print, "bool": b_bool, "str": b_str, "bin": b_bin, "frozenset": b_frozenset,
+    "bisect_left": b_bisect_left, "round": b_round, "set": b_set, "sorted": b_sorted, "hasattr": b_hasattr, "dir": b_dir, "type": b_type, "getattr": b_getattr, "setattr": b_setattr, "print": b_print, "bool": b_bool, "str": b_str, "bin": b_bin, "frozenset": b_frozenset,
 }
 
 
